@@ -122,7 +122,13 @@ pub fn from_bits(v: &Value) -> u64 {
         .unwrap_or(0)
 }
 pub fn hex(b: &[u8]) -> String {
-    b.iter().map(|x| format!("{x:02x}")).collect()
+    const D: &[u8; 16] = b"0123456789abcdef";
+    let mut s = String::with_capacity(2 * b.len());
+    for x in b {
+        s.push(D[(x >> 4) as usize] as char);
+        s.push(D[(x & 15) as usize] as char);
+    }
+    s
 }
 pub fn unhex(s: &str) -> Vec<u8> {
     (0..s.len() / 2)
